@@ -65,6 +65,11 @@ SPECS = [
     dict(name="objMean", file="ribs/archives/_archive_base.py", func="ArchiveBase._stats_update",
          call="ArchiveStats", kw="obj_mean",
          env={"self._objective_sum": "s", "len(self)": "n"}, vars=["s", "n"], nat=[]),
+    # SlidingBoundariesArchive.index_of: the clip applied before the boundary search
+    dict(name="sbClip", file="ribs/archives/_sliding_boundaries_archive.py", func="SlidingBoundariesArchive.index_of",
+         assign="measures", nth=1,
+         env={"measures": "m", "self._epsilon": "eps", "self._lower_bounds": "lo", "self._upper_bounds": "hi"},
+         vars=["m", "eps", "lo", "hi"], nat=[]),
     # the value maximised over the elites in cqd_score: normalised objective minus penalty times normalised distance
     dict(name="cqdValue", file="ribs/archives/_archive_base.py", func="ArchiveBase.cqd_score",
          assign="values", nth=0,
@@ -308,6 +313,9 @@ def to_lean(node, spec, assigns, depth=0):
         if fn in ("np.array", "np.asarray") and node.args and isinstance(node.args[0], ast.List) \
                 and len(node.args[0].elts) == 1:
             return to_lean(node.args[0].elts[0], spec, assigns, depth + 1)
+        if fn == "np.clip" and len(node.args) == 3 and not node.keywords:
+            x, lo_, hi_ = (to_lean(a_, spec, assigns, depth + 1) for a_ in node.args)
+            return f"(min (max {x} {lo_}) {hi_})"        # np.clip(x, a, b) = minimum(maximum(x, a), b)
         raise Untranslatable(f"call {fn}(...)")
     if isinstance(node, ast.List) and len(node.elts) == 1:
         return to_lean(node.elts[0], spec, assigns, depth + 1)
